@@ -123,6 +123,7 @@ inline V elliptic4(double k2, double alpha2, double kp2, double alphap2) { retur
 inline V intersect(double a, double f) {
   V v = ellipsoid(a, f);
   if (v != VALID) return v;
+  if (!(a >= 1e-150 && a <= 1e150)) return SILENT;       // lengths squared / inverted inside the class over- or underflow: the header is silent about the scale
   return (f >= -0.25 && f <= 0.2) ? VALID : SILENT;
 }
 // ---- NearestNeighbor(pts, dist, bucket): "bucket is out of bounds" -- 0 <= bucket <= maxbucket (10)
